@@ -9,7 +9,7 @@
 (*   "per"   a = index of a first character: the period grammar                                   *)
 (*   "fmt"   a = a day: formats, what they write and what comes back                              *)
 EXTENDS TenorCal, TLC, Json
-CONSTANTS NthYears, Days, GenDays
+CONSTANTS NthYears, Days, GenDays, GenFams
 
 D == INSTANCE Dates      \* property C04: Denote(form, written integers, dialect) - reused, not copied
 
@@ -177,8 +177,12 @@ FormatLaws == On("fmt") => \A ti \in 1..Len(Tods) :
 
 \* ---- generators ------------------------------------------------------------------------------
 Emit(x) == done = FALSE /\ done' = TRUE /\ UNCHANGED <<k, a>> /\ PrintT(ToJson(x))
+\* (a LET-bound sequence indexed inside a function constructor is evaluated again for every index: map with the
+\* iterative FoldLeft instead, which evaluates the sequence once)
+MapS(F(_), seq) == FoldLeft(LAMBDA acc, x : Append(acc, F(x)), <<>>, seq)
+Count(n) == [i \in 1..n |-> i]
 NsSeq == <<-7, -6, -5, -4, -3, -2, -1, 1, 2, 3, 4, 5, 6, 7>>
-GenInit == /\ done = FALSE
+GenInit == /\ done = FALSE /\ k \in GenFams
            /\ \/ k = "gmon"  /\ a \in 0..12
               \/ k = "gnth"  /\ a \in {y * 14 + m : y \in NthYears, m \in 0..13}
               \/ k = "gnum"  /\ a \in GenDays
@@ -189,19 +193,19 @@ GenInit == /\ done = FALSE
 \* months: every spelling of month a (a = 0: the things that are not months, and integers), for month() and for ym()
 GenMon == LET vs == SetToSeq(IF a = 0 THEN NotMonths \cup {<<"int", j>> : j \in -24..36} \cup {<<"float", j, 1>> : j \in {-13, 0, 13, 25}}
                                       ELSE MonthSpellings(a)) IN
-          Emit([k |-> "mon", cases |-> [i \in 1..Len(vs) |-> [v |-> vs[i], month |-> Month(vs[i]),
-                                                               ym |-> [j \in 1..3 |-> YM(<<1999, 2000, 2001>>[j], vs[i])]]]])
+          Emit([k |-> "mon", cases |-> MapS(LAMBDA v : [v |-> v, month |-> Month(v), ym |-> [j \in 1..3 |-> YM(<<1999, 2000, 2001>>[j], v)]], vs)])
 \* n-th weekday: month m of year y (also the months 0 and 13), every n and weekday; the month and the weekday are
 \* spelled in each of their spellings in turn
 WdSpellings(w) == LET nm == WdNames[w + 1] IN <<Take(nm, 3), nm, UpperStr(Take(nm, 3)), Cap(nm), Cap(Take(nm, 4))>>
 GenNth ==
     LET y == a \div 14  m == a % 14
         sp == IF m \in 1..12 THEN SetToSeq(MonthSpellings(m)) ELSE << <<"int", m>> >>
-        cases == [i \in 1..98 |->
+        nsp == Len(sp)
+        cases == MapS(LAMBDA i :
                     LET n  == NsSeq[((i - 1) \div 7) + 1]  w == (i - 1) % 7
-                        mv == sp[((i + a) % Len(sp)) + 1]
+                        mv == IF nsp = 1 THEN <<"int", m>> ELSE SetToSeq(MonthSpellings(m))[((i + a) % nsp) + 1]
                         ws == WdSpellings(w)[((i + a) % 5) + 1]
-                    IN  [n |-> n, mv |-> mv, ws |-> ws, want |-> NthDow(y, mv, n, ws)]]
+                    IN  [n |-> n, mv |-> mv, ws |-> ws, want |-> NthDow(y, mv, n, ws)], Count(98))
     IN  Emit([k |-> "nth", y |-> y, m |-> m, cases |-> cases])
 \* numbers: the spellings of day a, with times of day and fractions; and (gnumb) the numbers around the borders of the bands
 NumCase(v) == [v |-> v, want |-> NumDenote(v, 0)]
@@ -233,7 +237,7 @@ GenNp ==
 \* periods: every string of at most four characters of the alphabet that begins with character a (and the empty string)
 GenPer ==
     LET ss == SetToSeq(UNION {{<<PerAlpha[a]>> \o AsStr(f) : f \in Strs(n)} : n \in 0..3} \cup (IF a = 1 THEN {<<>>} ELSE {}))
-    IN  Emit([k |-> "per", cases |-> [i \in 1..Len(ss) |-> [s |-> ss[i], period |-> IsPeriod(ss[i]), bump |-> IsBump(<<"str", ss[i]>>)]]])
+    IN  Emit([k |-> "per", cases |-> MapS(LAMBDA x : [s |-> x, period |-> IsPeriod(x), bump |-> IsBump(<<"str", x>>)], ss)])
 \* formats: day a at one time of the menu; a quarter of the layouts in turn, written bare or with '%'; the special
 \* spellings; and formats that are only written, never read back
 FmtCase(f, c) == [fmt |-> f, want |-> Dt2Str(f, c), back |-> SpecialReadBack(f, c), dls |-> <<"uk", "us">>]
@@ -244,12 +248,12 @@ GenFmt ==
     LET c   == Civ(a, Tods[(a % Len(Tods)) + 1])
         Ls  == SetToSeq({L \in Layouts : L.time # "" \/ L.join = " "})
         sel == SelectSeq([i \in 1..Len(Ls) |-> <<i, Ls[i]>>], LAMBDA p : (p[1] + a) % 4 = 0)
-        lay == [i \in 1..Len(sel) |->
-                   LET L == sel[i][2]  f == IF (sel[i][1] + a) % 8 = 0 THEN Percent(LayoutFormat(L)) ELSE LayoutFormat(L) IN
-                   [fmt |-> <<"str", f>>, want |-> Dt2Str(<<"str", f>>, c), back |-> ReadBack(L, c), dls |-> SetToSeq(DialectsOf(L))]]
+        lay == MapS(LAMBDA p :
+                   LET L == p[2]  f == IF (p[1] + a) % 8 = 0 THEN Percent(LayoutFormat(L)) ELSE LayoutFormat(L) IN
+                   [fmt |-> <<"str", f>>, want |-> Dt2Str(<<"str", f>>, c), back |-> ReadBack(L, c), dls |-> SetToSeq(DialectsOf(L))], sel)
         spc == << FmtCase(<<"none">>, c), FmtCase(<<"str", <<>>>>, c), FmtCase(<<"str", <<"i","s","o">>>>, c) >>
                \o [i \in 1..4 |-> FmtCase(<<"str", <<SetToSeq(Seps4)[i]>>>>, c)]
-               \o [i \in 1..Len(OneWay) |-> FmtCase(<<"str", OneWay[i]>>, c)]
+               \o MapS(LAMBDA f : FmtCase(<<"str", f>>, c), OneWay)
     IN  Emit([k |-> "fmt", c |-> c, cases |-> lay \o spc])
 GenNext == CASE k = "gmon" -> GenMon [] k = "gnth" -> GenNth [] k = "gnum" -> GenNum [] k = "gnumb" -> GenNumB
              [] k = "gnp" -> GenNp [] k = "gper" -> GenPer [] k = "gfmt" -> GenFmt
